@@ -294,22 +294,82 @@ pub fn probes() -> Vec<Vec<Cmd>> {
 
 pub struct Graph {
     pub nodes: Vec<(String, Vec<Cmd>)>, // (state, a shortest session reaching it)
+    pub dynamic: Vec<Vec<Cmd>>,         // per node: continuation commands derived from what the engine answered
     pub index: HashMap<String, usize>,
     pub edges: u64,
     pub depth_reached: usize,
     pub fixpoint: bool,
 }
 
+/// Continuation commands a GUI could send next, derived from what the session has shown so far:
+/// the current game (last position command + the engine's own answers since) continued by a legal reply,
+/// or — if no go followed the last position command — the same game with its last move taken back and replaced.
+pub fn dynamic_cmds(session: &[Cmd], o: &Outcome) -> Vec<Cmd> {
+    let lp = match session.iter().rposition(|c| c.line.starts_with("position")) {
+        Some(i) => i,
+        None => return Vec::new(),
+    };
+    // bestmoves of the go commands after it
+    let mut it = replies(o).into_iter();
+    let mut bests: Vec<String> = Vec::new();
+    for (i, c) in session.iter().enumerate() {
+        if is_go(&c.line) {
+            for l in it.by_ref() {
+                if let Some(m) = l.strip_prefix("bestmove ") {
+                    if i > lp && m != "0000" {
+                        bests.push(m.to_string());
+                    }
+                    break;
+                }
+            }
+        } else if c.line.trim() == "isready" {
+            let _ = it.next();
+        }
+    }
+    let t: Vec<&str> = session[lp].line.split_whitespace().collect();
+    let mi = t.iter().position(|x| *x == "moves");
+    let prefix = t[..mi.unwrap_or(t.len())].join(" ");
+    let mut moves: Vec<String> = mi.map(|i| t[i + 1..].iter().map(|x| x.to_string()).collect()).unwrap_or_default();
+    let mut out = Vec::new();
+    let render = |mv: &[String]| if mv.is_empty() { prefix.clone() } else { format!("{} moves {}", prefix, mv.join(" ")) };
+    if !bests.is_empty() {
+        moves.extend(bests);
+        if let Some(p) = pos_of_command(&render(&moves)) {
+            let mut legal: Vec<String> = p.legal_moves().iter().map(|m| m.uci()).collect();
+            legal.sort();
+            for r in legal.iter().take(2) {
+                let mut mv = moves.clone();
+                mv.push(r.clone());
+                out.push(c(&render(&mv)));
+            }
+        }
+    } else if let Some(last) = moves.pop() {
+        if let Some(p) = pos_of_command(&render(&moves)) {
+            let mut legal: Vec<String> = p.legal_moves().iter().map(|m| m.uci()).filter(|m| *m != last).collect();
+            legal.sort();
+            if let Some(r) = legal.first() {
+                let mut mv = moves.clone();
+                mv.push(r.clone());
+                out.push(c(&render(&mv)));
+            }
+        }
+    }
+    out
+}
+
 /// BFS over the session state graph: node = dumped loop state, edge = one command appended to a
 /// shortest session reaching the node (fresh process, session replayed).
 pub fn build_graph(rep: &Report, alphabet: &[Cmd], max_depth: usize) -> Graph {
-    let mut g = Graph { nodes: vec![("<initial>".to_string(), Vec::new())], index: HashMap::new(), edges: 0, depth_reached: 0, fixpoint: false };
+    let mut g = Graph { nodes: vec![("<initial>".to_string(), Vec::new())], dynamic: vec![Vec::new()], index: HashMap::new(), edges: 0, depth_reached: 0, fixpoint: false };
     g.index.insert("<initial>".to_string(), 0);
     let mut frontier: Vec<usize> = vec![0];
     for depth in 1..=max_depth {
         let mut jobs: Vec<(usize, Cmd)> = Vec::new();
         for &n in &frontier {
             for a in alphabet {
+                jobs.push((n, a.clone()));
+            }
+            for a in &g.dynamic[n] {
                 jobs.push((n, a.clone()));
             }
         }
@@ -337,6 +397,7 @@ pub fn build_graph(rep: &Report, alphabet: &[Cmd], max_depth: usize) -> Graph {
             if !g.index.contains_key(&st) {
                 g.index.insert(st.clone(), g.nodes.len());
                 next.push(g.nodes.len());
+                g.dynamic.push(dynamic_cmds(&session, &o));
                 g.nodes.push((st, session));
             }
         }
@@ -431,6 +492,44 @@ pub fn run_c16(rep: &Report) -> i32 {
             }
         }
     });
+    // dynamic probes: after every state, every continuation of its own game followed by go, against a fresh engine
+    let dyn_jobs: Vec<(usize, usize, bool)> = (0..g.nodes.len()).flat_map(|n| (0..g.dynamic[n].len()).flat_map(move |d| [(n, d, false), (n, d, true)])).collect();
+    let fresh_cache: Mutex<HashMap<(String, bool), Outcome>> = Mutex::new(HashMap::new());
+    let dyn_runs = AtomicU64::new(0);
+    run_parallel(dyn_jobs.len(), |i| {
+        let (n, d, timed) = dyn_jobs[i];
+        let probe = vec![g.dynamic[n][d].clone(), if timed { go(GO_TIMED, 40) } else { c("go") }];
+        let key = (probe[0].line.clone(), timed);
+        let cached = fresh_cache.lock().unwrap().get(&key).cloned();
+        let f = match cached {
+            Some(f) => f,
+            None => {
+                let f = run_session(&probe, &default_opts());
+                fresh_cache.lock().unwrap().insert(key, f.clone());
+                f
+            }
+        };
+        let mut session = g.nodes[n].1.clone();
+        session.extend(probe.iter().cloned());
+        let o = run_session(&session, &default_opts());
+        dyn_runs.fetch_add(1, Ordering::Relaxed);
+        if o.timed_out || o.states.len() != session.len() {
+            rep.fail("C08", "session-hangs", format!("session of {} commands: {} handled, timed out {}, exit {:?}", session.len(), o.states.len(), o.timed_out, o.exit_code), session_json(&session));
+            return;
+        }
+        let fr = replies(&f);
+        let all = replies(&o);
+        let got: Vec<String> = if all.len() >= fr.len() { all[all.len() - fr.len()..].to_vec() } else { all.clone() };
+        if got != fr || last_state(&o) != last_state(&f) {
+            rep.fail(
+                "C16",
+                &format!("continuation-of-own-game-differs/after-{}", g.nodes[n].1.last().map(|c| c.line.split(' ').next().unwrap_or("").to_string()).unwrap_or("nothing".into())),
+                format!("after {:?} the probe {:?} replies {:?} (a fresh engine: {:?}){}", g.nodes[n].1.iter().map(|c| c.line.clone()).collect::<Vec<_>>(), probe.iter().map(|c| c.line.clone()).collect::<Vec<_>>(), got, fr, if last_state(&o) != last_state(&f) { "; the loop state differs too" } else { "" }),
+                session_json(&session),
+            );
+        }
+    });
+    rep.add("dynamic_probe_runs_continuing_the_sessions_own_game", dyn_runs.load(Ordering::Relaxed));
     // prefix relation between the two timed allowances of each probed position
     for p in (0..probes.len()).step_by(3) {
         if !infos_prefix_related(&replies(&fresh[p + 1]), &replies(&fresh[p + 2])) {
@@ -490,8 +589,8 @@ pub fn run_c16(rep: &Report) -> i32 {
     }
     rep.assume("the loop's only mutable locals are the board and the repetition record (dumped by hook H7), so equal dumps have equal futures");
     rep.assume("under the environment-driven virtual clock the I/O thread answers after the search thread has finished and been drained: the reply is the search's last improvement under expiry k");
-    let rule = format!("BFS over the session state graph: {} commands as transitions from every state, to {}; then each of {} probes (6 positions x zero allowance / expiry 40 / expiry 400), sent twice, after every state, compared with a fresh engine; all raw sessions of length <= {} cross-check the state dedup", alphabet.len(), if g.fixpoint { "the fixpoint".to_string() } else { format!("depth {}", g.depth_reached) }, probes.len(), raw_len);
-    let total_sessions = g.edges + probe_runs.load(Ordering::Relaxed) + raw.len() as u64;
+    let rule = format!("BFS over the session state graph: {} commands as transitions from every state, to {}; then each of {} probes (6 positions x zero allowance / expiry 40 / expiry 400), sent twice, after every state, compared with a fresh engine; transitions and probes also include, per state, the continuations of the session's own game (last position command + the engine's answers + a legal reply, or the last move taken back and replaced); all raw sessions of length <= {} cross-check the state dedup", alphabet.len(), if g.fixpoint { "the fixpoint".to_string() } else { format!("depth {}", g.depth_reached) }, probes.len(), raw_len);
+    let total_sessions = g.edges + probe_runs.load(Ordering::Relaxed) + dyn_runs.load(Ordering::Relaxed) + raw.len() as u64;
     rep.finish(g.nodes.len() as u64, total_sessions, conf_ok.load(Ordering::Relaxed), g.fixpoint, &rule)
 }
 
@@ -693,6 +792,27 @@ pub fn c04_sessions(rep: &Report, commands: &[String]) -> (u64, u64) {
         sessions.push((vec![c(others[i % 2]), c("go"), p.clone()], i));
         sessions.push((vec![p.clone(), c("go"), c(others[(i + 1) % 2]), c("go"), p.clone()], i));
     }
+    // the game continued the way a GUI does: P, go (engine plays m), then P + m + reply, then the reply taken
+    // back and replaced; the command under test is the last one
+    let mut commands: Vec<String> = commands.to_vec();
+    let firsts: Vec<Outcome> = run_parallel(commands.len(), |i| run_session(&[c(&commands[i]), c("go")], &default_opts()));
+    if firsts.len() == commands.len() {
+        let n0 = commands.len();
+        for i in 0..n0 {
+            let s0 = vec![c(&commands[i]), c("go")];
+            let d = dynamic_cmds(&s0, &firsts[i]);
+            if d.len() == 2 {
+                for (a, b) in [(0usize, 1usize), (1, 0)] {
+                    commands.push(d[b].line.clone());
+                    let ci = commands.len() - 1;
+                    sessions.push((vec![s0[0].clone(), s0[1].clone(), d[a].clone(), d[b].clone()], ci));
+                    sessions.push((vec![s0[0].clone(), s0[1].clone(), c(others[i % 2]), d[b].clone()], ci));
+                    sessions.push((vec![s0[0].clone(), s0[1].clone(), d[a].clone(), c("go"), d[b].clone()], ci));
+                }
+            }
+        }
+    }
+    let commands = &commands;
     let total = AtomicU64::new(0);
     run_parallel(sessions.len(), |j| {
         let (s, ci) = &sessions[j];
